@@ -67,7 +67,7 @@ class _ToyNistPriv:
 
 
 def toy_nist_valid(data):
-    return len(data) == 17 and data[0] == 4 and int.from_bytes(data[1:], "big") < TOY_Q
+    return len(data) == 17 and data[0] in (4, 2) and int.from_bytes(data[1:], "big") < TOY_Q
 
 
 class ToyEcModule:
@@ -81,7 +81,9 @@ class ToyEcModule:
         def from_encoded_point(curve, data):
             if not toy_nist_valid(data):
                 raise ValueError("toy: invalid point")
-            return _ToyNistPub(bytes(data))
+            # like the real library the key object forgets HOW the point was encoded: public_bytes() gives the
+            # canonical 04-form even when the alternative 02-form was received
+            return _ToyNistPub(b"\x04" + bytes(data[1:]))
 
     def generate_private_key(self, curve, backend=None):
         return _ToyNistPriv(self._scalars.pop(0))
@@ -863,7 +865,8 @@ def toy_curve_scenarios(rng):
                        (rng.randbytes(32), "valid"), ((2).to_bytes(32, "big"), "valid")]
             else:
                 v = rng.randrange(1, TOY_Q)
-                pts = [(b"\x04" + v.to_bytes(16, "big"), "valid"), (b"\x04" + (0).to_bytes(16, "big"), "valid"), (b"\x04" + (TOY_Q + 5).to_bytes(16, "big"), "off-curve"),
+                pts = [(b"\x04" + v.to_bytes(16, "big"), "valid"), (b"\x02" + v.to_bytes(16, "big"), "valid"),
+                       (b"\x03" + v.to_bytes(16, "big"), "malformed"), (b"\x04" + (0).to_bytes(16, "big"), "valid"), (b"\x04" + (TOY_Q + 5).to_bytes(16, "big"), "off-curve"),
                        (b"\x04" + TOY_Q.to_bytes(16, "big"), "off-curve"), (b"\x05" + v.to_bytes(16, "big"), "malformed"),
                        (b"\x04" + v.to_bytes(15, "big"), "malformed"), (b"", "malformed"), (b"\x00", "malformed"),
                        (b"\x04" + (TOY_Q - 1).to_bytes(16, "big"), "valid")]
